@@ -13,7 +13,7 @@ Definition len (l : list Z) : Z := Z.of_nat (length l).
 Fixpoint eqb_bytes (a b : list Z) : bool :=
   match a, b with
   | [], [] => true
-  | x :: r, y :: s => (x =? y) && eqb_bytes r s
+  | x :: r, y :: s => if x =? y then eqb_bytes r s else false   (* lazy: stops at the first difference *)
   | _, _ => false
   end.
 
